@@ -134,7 +134,7 @@ static void entry_points(const Case& c, YR_RULES* rules, Stats& st, std::set<std
   if (want("two_blocks_absolute_offsets") && c.buf.size() >= 64) {
     size_t cut = c.buf.size() / 2;
     Outcome o = scan_blocks(rules, c.buf, {{0, cut}, {cut, c.buf.size() - cut}}, {}, {}, {}, false);
-    auto probes = [](const std::string& t) { std::string out; size_t p = 0; while (p < t.size()) { size_t e = t.find('\n', p); std::string l = t.substr(p, e - p + 1); p = e + 1; if (l.find("default:c13_cnt_in") != std::string::npos || l.find("default:c13_at") != std::string::npos) { size_t sp = l.find(' ', l.find(' ') + 1); out += l.substr(0, sp) + "\n"; } } return out; };
+    auto probes = [](const std::string& t) { std::string out; size_t p = 0; while (p < t.size()) { size_t e = t.find('\n', p); std::string l = t.substr(p, e - p + 1); p = e + 1; if (l.find("c13abs:c13_cnt_in") != std::string::npos || l.find("c13abs:c13_at") != std::string::npos) { size_t sp = l.find(' ', l.find(' ') + 1); out += l.substr(0, sp) + "\n"; } } return out; };
     Outcome po = o; po.trace = probes(o.trace); Outcome pref = ref; std::string keep = ref.trace; 
     // compare against the reference's probe lines only
     { std::string want_t = probes(keep); if (!(po.rc == ref.rc && po.trace == want_t)) { Outcome bad = po; if (po.rc == ref.rc) { bad.trace = ref.trace + "#two-blocks: " + po.trace + " instead of " + want_t; } check("two_blocks_absolute_offsets", bad); } else { st.runs++; st.c["entry.two_blocks_absolute_offsets"]++; } }
@@ -233,9 +233,11 @@ static std::vector<Case> make_cases(uint64_t seed, int i) {
   Rng rng(sim_run_seed(seed, 3000 + i));
   LabCase lc = gen_labcase(rng, i % 3 == 0 ? 10 : 5, true, i % 4 == 0, true);
   // rules that read data during evaluation and depend on the entry point, in every case
-  lc.spec.sources[0].second += "rule c13_ep { condition: entrypoint >= 0 }\nrule c13_u8 { condition: uint8(0) == 0x48 or uint16(1) == 0x4145 }\nrule c13_fw { strings: $a = \"tailword\" fullword condition: $a }\n"
-    // offsets are absolute, whatever block a match was found in: counted in a range, tested at a position, read back
-    "rule c13_cnt_in { strings: $t = \"tailword\" condition: #t in (filesize \\ 2..filesize) == 1 }\nrule c13_at { strings: $t = \"tailword\" condition: #t > 0 and $t at (filesize - 8) and @t[#t] == filesize - 8 and $t in (filesize - 9..filesize) }\n";
+  lc.spec.sources[0].second += "rule c13_ep { condition: entrypoint >= 0 }\nrule c13_u8 { condition: uint8(0) == 0x48 or uint16(1) == 0x4145 }\nrule c13_fw { strings: $a = \"tailword\" fullword condition: $a }\n";
+  // offsets are absolute, whatever block a match was found in: counted in a range, tested at a position, read back.
+  // In a namespace of their own: a generated global rule whose string straddles the cut legitimately fails in a
+  // two-block scan and would take every rule of its namespace with it.
+  lc.spec.sources.push_back({"c13abs", "rule c13_cnt_in { strings: $t = \"tailword\" condition: #t in (filesize \\ 2..filesize) == 1 }\nrule c13_at { strings: $t = \"tailword\" condition: #t > 0 and $t at (filesize - 8) and @t[#t] == filesize - 8 and $t in (filesize - 9..filesize) }\n"});
   std::vector<Case> v;
   std::string text = lc.buffers[0];
   static const size_t sizes[] = {0, 1, 100, 4095, 4096, 4097, 8192};
